@@ -15,23 +15,24 @@ import (
 
 // connState is the monitor's per-connection record (stored as the Conn's context).
 type connState struct {
-	traffics   int64 // first: 64-bit atomics need 8-byte alignment on 32-bit platforms
-	tok        int64
-	key        uint64 // addrKey of the peer-identifying address
-	c          gnet.Conn
-	fd         int
-	loop       gnet.EventLoop
-	loopIdx    int
-	userCtx    any
-	state      int32 // 0 new, 1 open, 2 closed
-	opens      int32
-	closes     int32
-	afterClose int32
-	closeErr   error
-	closeSeq   int64
-	openSeq    int64
-	remote     string
-	local      string
+	traffics       int64 // first: 64-bit atomics need 8-byte alignment on 32-bit platforms
+	closeLoopCalls int64 // the loop's callback count when OnClose of this connection was entered
+	tok            int64
+	key            uint64 // addrKey of the peer-identifying address
+	c              gnet.Conn
+	fd             int
+	loop           gnet.EventLoop
+	loopIdx        int
+	userCtx        any
+	state          int32 // 0 new, 1 open, 2 closed
+	opens          int32
+	closes         int32
+	afterClose     int32
+	closeErr       error
+	closeSeq       int64
+	openSeq        int64
+	remote         string
+	local          string
 	// armed close causes (set by scenarios before they cause a close)
 	armedLocal  atomic.Bool
 	armedRemote atomic.Bool
@@ -55,6 +56,7 @@ type hooks struct {
 type loopOwner struct {
 	gid   int64
 	depth int32
+	calls atomic.Int64 // callbacks entered on this loop (logical time of the loop)
 }
 
 // monitor is the gnet.EventHandler given to every engine under test.
@@ -145,6 +147,7 @@ func (m *monitor) enter(loop gnet.EventLoop, what string) (gid int64, ok bool) {
 	gid = vlib.GoID()
 	v, _ := m.owners.LoadOrStore(loop, &loopOwner{})
 	o := v.(*loopOwner)
+	o.calls.Add(1)
 	g0 := atomic.LoadInt64(&o.gid)
 	switch {
 	case g0 == 0:
@@ -217,6 +220,25 @@ func (m *monitor) stateOf(c gnet.Conn) *connState {
 		}
 	}
 	return nil
+}
+
+// loopCalls is the number of callbacks entered so far on a loop: once it has grown past the value recorded inside a
+// callback, that callback - and the framework function that invoked it - has returned.
+func (m *monitor) loopCalls(loop gnet.EventLoop) int64 {
+	if v, ok := m.owners.Load(loop); ok {
+		return v.(*loopOwner).calls.Load()
+	}
+	return 0
+}
+
+// loopCallsAll returns the callback counts of all loops seen so far.
+func (m *monitor) loopCallsAll() map[gnet.EventLoop]int64 {
+	out := map[gnet.EventLoop]int64{}
+	m.owners.Range(func(k, v any) bool {
+		out[k.(gnet.EventLoop)] = v.(*loopOwner).calls.Load()
+		return true
+	})
+	return out
 }
 
 func (m *monitor) OnBoot(e gnet.Engine) gnet.Action {
@@ -335,6 +357,7 @@ func (m *monitor) OnClose(c gnet.Conn, err error) gnet.Action {
 	}
 	cs.closeErr = err
 	cs.closeSeq = vsys.Seq()
+	atomic.StoreInt64(&cs.closeLoopCalls, m.loopCalls(loop))
 	m.logf("OnClose tok=%d fd=%d err=%v", cs.tok, cs.fd, err)
 	var act gnet.Action
 	if m.h.onClose != nil {
